@@ -1,9 +1,10 @@
 from pyvc.lang import *
 
 
-@contract("dissect.cobaltstrike.beacon:BeaconConfig.from_bytes", props=["C08"])
+@external("dissect.cobaltstrike.beacon:BeaconConfig.from_bytes", props=["C20"])
 def _(cls: "any", data: "bytes", xor_keys: "any", all_xor_keys: "bool"):
-    """safety contract used by callers: only the documented ValueError escapes (C08)"""
+    """ASSUMED at call sites (pcap.find_staged_beacon): only the documented ValueError escapes.  Not proved - the
+    constructor is outside the verifier's reach; bounded/C08.py and bounded/C01.py exercise it on the real code."""
     raises(ValueError)
     returns("any")
 
